@@ -361,6 +361,12 @@ func (b *Buffer) fill(buf []byte, fill string, enc goja.Value) []byte {
 	if len(b1) > len(buf) {
 		return b1[:len(buf)]
 	}
+	if len(b1) == 0 {
+		// nothing to repeat: the buffer stays zero-filled
+		return buf
+	}
+	// DecodeAppend allocates when the worst-case decoded size exceeds the capacity
+	copy(buf, b1)
 	for i := len(b1); i < len(buf); {
 		i += copy(buf[i:], buf[:i])
 	}
